@@ -79,8 +79,26 @@ def value_of(e):
 def params_case(draw):
     table = draw(gen.tables(max_cols=4, max_rows=5))
     other = draw(gen.tables(name='u', max_cols=2, max_rows=4, types=gen.KEYTYPES))
-    kind = draw(st.sampled_from(['plain', 'plain', 'agg', 'subq', 'in']))
-    if kind == 'agg':
+    kind = draw(st.sampled_from(['plain', 'plain', 'agg', 'subq', 'in', 'twin']))
+    numeric = [n for n, t in table['cols'] if t in ('int', 'decimal') and n != 'rid']
+    if kind == 'twin' and not numeric:
+        kind = 'plain'
+    if kind == 'twin':
+        # one expression shape written twice - as an un-aliased target and as ORDER BY / GROUP BY key - holding different
+        # constants at the two places: the placeholders bind per occurrence, not per expression text
+        x = ['col', draw(st.sampled_from(numeric))]
+        shape = draw(st.sampled_from(['mul', 'add', 'mod', 'sub']))
+        c1, c2 = draw(st.permutations([-3, -1, 2, 5, 7]))[:2]
+        mk = lambda c: [shape, x, ['const', 'int', c]] if c > 0 or shape == 'mod' else [shape, x, ['neg', ['const', 'int', -c]]]  # noqa: E731
+        if shape == 'mod':
+            c1, c2 = abs(c1), abs(c2)
+        if draw(st.booleans()):
+            sel = bql.select([(['col', 'rid'], None), (mk(c1), None)], ('table', 't'),
+                             order_by=[(mk(c2), draw(st.sampled_from([None, 'DESC']))), (['col', 'rid'], None)])
+        else:
+            sel = bql.select([(mk(c2), None), (['fn', 'count', [['star']]], 'n'), (['fn', 'min', [mk(c1)]], None)], ('table', 't'),
+                             group_by=[mk(c2)], order_by=[(['fn', 'min', [mk(c2)]], 'DESC'), (mk(c2), None)])
+    elif kind == 'agg':
         sel = draw(gen.agg_selects(table))
     else:
         sel = draw(gen.plain_selects(table))
@@ -96,11 +114,11 @@ def params_case(draw):
         cond = ['in', x, ['subq', inner]]
         sel['where'] = cond if sel['where'] is None else ['and', [sel['where'], cond]]
     literal_sel = sel
-    named = draw(st.booleans())
+    named = draw(st.booleans()) and kind != 'twin'
     values = {}
 
     def decide(e):
-        if draw(st.integers(0, 2)) == 0:
+        if kind != 'twin' and draw(st.integers(0, 2)) == 0:
             return e
         v = value_of(e)
         name = f'p{len(values)}'
@@ -119,7 +137,7 @@ def params_case(draw):
         literal_sel = add(literal_sel, ['gt', ['sub', ['const', 'int', 7], ['const', 'int', 2]], ['const', 'int', 0]])
         values.update(p0=7, p1=2)
         sel = add(sel, ['gt', ['sub', ['ph', 'p0'], ['ph', 'p1']], ['const', 'int', 0]])
-    style = draw(gen.styles(parens=0.05, space=True))
+    style = draw(gen.styles(parens=0.05, space=True)) if kind != 'twin' else bql.CANON
     text = bql.statement(sel, style)
     order = [m.group(1) for m in re.finditer(r'%\((p\d+)\)s', text)]
     if named:
